@@ -363,13 +363,25 @@ func (p *dparser) ty() *T {
 
 // ---- linting -------------------------------------------------------------------
 
+// lintProject: the workflow linted as .github/workflows/gen.yaml of a scratch repository that
+// holds the given other files (local reusable workflows, local actions)
+var lintProject string
+
 func lintLines(src string) (map[int][]string, error) {
 	var ob bytes.Buffer
 	l, err := actionlint.NewLinter(&ob, &actionlint.LinterOptions{Color: actionlint.ColorOptionKindNever})
 	if err != nil {
 		return nil, err
 	}
-	errs, err := l.Lint("gen.yaml", []byte(src), nil)
+	path := "gen.yaml"
+	var proj *actionlint.Project
+	if lintProject != "" {
+		path = filepath.Join(lintProject, ".github", "workflows", "gen.yaml")
+		if proj, err = actionlint.NewProject(lintProject); err != nil {
+			return nil, err
+		}
+	}
+	errs, err := l.Lint(path, []byte(src), proj)
 	if err != nil {
 		return nil, err
 	}
@@ -632,6 +644,14 @@ func main() {
 			{"runs-on-array", runner("macos"), "on: push\njobs:\n  a:\n    strategy:\n      matrix:\n        runner:\n          - [self-hosted, linux]\n          - " + anyE + "\n    runs-on: ${{ matrix.runner }}\n    steps:\n      - run: echo\n"},
 			{"runs-on-elements-expr", "on: push\njobs:\n  a:\n    runs-on: ${{ fromJSON('[\"a\",\"b\"]') }}\n    steps:\n      - run: echo\n", "on: push\njobs:\n  a:\n    runs-on: ${{ fromJSON(vars.LABELS) }}\n    steps:\n      - run: echo\n"},
 		}...)
+		// the `jobs` context of a reusable workflow: a job with declared outputs against a job that
+		// is itself a call (outputs unknown)
+		callOut := func(build string) string {
+			return "on:\n  workflow_call:\n    outputs:\n      t:\n        value: ${{ jobs.build.outputs.tag }}\n      v:\n        value: ${{ jobs.version.outputs.v }}\njobs:\n  version:\n    runs-on: ubuntu-latest\n    outputs:\n      v: x\n    steps:\n      - run: echo\n" + build
+		}
+		sites = append(sites, struct{ name, precise, loose string }{"jobs-context-nested-call",
+			callOut("  build:\n    runs-on: ubuntu-latest\n    outputs:\n      tag: x\n    steps:\n      - run: echo\n"),
+			callOut("  build:\n    uses: owner/repo/.github/workflows/b.yml@v1\n")})
 		for _, st := range sites {
 			pre, err1 := lintLines(st.precise)
 			post, err2 := lintLines(st.loose)
@@ -650,6 +670,61 @@ func main() {
 					Key: "site-loosening:" + st.name, Workflow: st.precise, Loosened: st.loose, Where: st.name, Messages: msgs})
 			}
 		}
+	}
+	// sites that need files on disk: the outputs of a LOCAL reusable workflow, declared (closed
+	// object) against not readable (unknown: open); the job that reads them is written BEFORE the
+	// job that makes the call, and after it
+	{
+		root := filepath.Join(*out, "calleeproj")
+		os.RemoveAll(root)
+		must := func(err error) {
+			if err != nil {
+				panic(err)
+			}
+		}
+		must(os.MkdirAll(filepath.Join(root, ".git"), 0o755))
+		must(os.MkdirAll(filepath.Join(root, ".github", "workflows"), 0o755))
+		callee := filepath.Join(root, ".github", "workflows", "build.yaml")
+		reader := "  use:\n    needs: [call]\n    runs-on: ubuntu-latest\n    steps:\n      - run: echo ${{ needs.call.outputs.tag }}\n"
+		caller := "  call:\n    uses: ./.github/workflows/build.yaml\n"
+		lintProject = root
+		for _, order := range []struct{ name, jobs string }{{"reader-first", reader + caller}, {"caller-first", caller + reader}} {
+			src := "on: push\njobs:\n" + order.jobs
+			must(os.WriteFile(callee, []byte("on:\n  workflow_call:\n    outputs:\n      tag:\n        value: x\njobs:\n  j:\n    runs-on: ubuntu-latest\n    steps:\n      - run: echo\n"), 0o644))
+			pre, err1 := lintLines(src)
+			for _, variant := range []string{"missing", "not-a-workflow", "no-workflow-call"} {
+				os.Remove(callee)
+				switch variant {
+				case "not-a-workflow":
+					must(os.WriteFile(callee, []byte("on: [\n"), 0o644))
+				case "no-workflow-call":
+					must(os.WriteFile(callee, []byte("on: push\njobs:\n  j:\n    runs-on: ubuntu-latest\n    steps:\n      - run: echo\n"), 0o644))
+				}
+				post, err2 := lintLines(src)
+				name := "needs-of-local-callee:" + order.name + ":" + variant
+				sum.Evaluations++
+				if err1 != nil || err2 != nil || len(pre) > 0 {
+					sum.Dist["site_loosening_precondition_not_met:"+name]++
+					continue
+				}
+				sum.Dist["site_loosenings"]++
+				var msgs []string
+				for _, ms := range post {
+					for _, m := range ms {
+						// (that the callee cannot be read is reported, once: not a typing diagnostic)
+						if !strings.HasPrefix(m, "could not read reusable workflow file") && !strings.HasPrefix(m, "error while parsing reusable workflow") {
+							msgs = append(msgs, m)
+						}
+					}
+				}
+				if len(msgs) > 0 {
+					sum.OracleFails = append(sum.OracleFails, failure{What: "the outputs of a local reusable workflow that cannot be read (unknown) instead of declared introduced a diagnostic (" + name + ")",
+						Key: "site-loosening:" + name, Workflow: src, Loosened: src, Where: name + "; callee .github/workflows/build.yaml " + variant, Messages: msgs})
+				}
+			}
+		}
+		lintProject = ""
+		os.RemoveAll(root)
 	}
 	sum.Nontrivial = nontrivial
 	sum.Write(filepath.Join(*out, "summary_matrix.json"))
